@@ -1,5 +1,145 @@
-import AmcVerif.Props.Common
-/-! C09 placeholder: filled below -/
+import AmcVerif.Lemmas.VecOpsA
+import AmcVerif.Lemmas.HelperPosts
+import AmcVerif.Bridge.VecLawsU8
+import AmcVerif.Bridge.VecLawsU16
+import AmcVerif.Bridge.VecLawsU32
+import AmcVerif.Bridge.VecLawsU64
+/-! C09 — exception safety: basic guarantee everywhere, strong where documented.
+
+Statements over the slot-level model (`Prim/`, `Model/Vec.lean`), which the correspondence check runs against the real
+containers at every throw index. An outcome `.error (.exc e)` is a C++ exception (element copy / value initialisation
+`Exc.elem`, allocator `Exc.badAlloc`, capacity limit `Exc.overflow` / `Exc.outOfRange`); an outcome `.error (.fault f)` would be
+a lifetime violation (leak-by-overwrite, double destroy, read of a moved-from element …) and is excluded by every
+post-condition below. `StrongPost cfg Ok c m w xs xs' r`: the operation returns `r` and the container holds exactly `xs'`, or it
+threw and the container holds exactly `xs` (`VRep`: buffer = the live elements followed by raw slots only — nothing leaked,
+nothing moved-from, consistent size). The theorems hold for every flavour whose generated members satisfy `VecLaws`
+(instances for all three flavours and four size types at the end of this file, re-derived from the source on every run). -/
 namespace AmcVerif.Props.C09
-theorem C09_placeholder : True := trivial
+open AmcVerif
+variable {α : Type}
+
+/- the `uninitialized_*_n` algorithms destroy their partial output on throw -/
+theorem C09_uninit_fill_all_or_nothing (m : Mem α) (r : Region) (pre post : List (Slot α)) (ref : Ref α) (v : α) (k : Nat)
+    (h : m.buf r = some (pre ++ raws k ++ post)) (hin : RefIn m.buf r pre post k ref v) :
+    Post (uninitFillRef ⟨r, pre.length⟩ k ref) m
+      (BuiltOrRolledBack m r (pre ++ lives (List.replicate k v) ++ post) (pre ++ raws k ++ post)) :=
+  uninitFillRef_post m r pre post ref v k h hin
+
+theorem C09_uninit_copy_all_or_nothing (m : Mem α) (r : Region) (pre post : List (Slot α)) (vs : List α)
+    (h : m.buf r = some (pre ++ raws vs.length ++ post)) :
+    Post (uninitCopyN ⟨r, pre.length⟩ vs) m (BuiltOrRolledBack m r (pre ++ lives vs ++ post) (pre ++ raws vs.length ++ post)) :=
+  uninitCopyN_post m r pre post vs h
+
+theorem C09_uninit_value_all_or_nothing [Inhabited α] (m : Mem α) (r : Region) (pre post : List (Slot α)) (k : Nat)
+    (h : m.buf r = some (pre ++ raws k ++ post)) :
+    Post (uninitValueN (α := α) ⟨r, pre.length⟩ k) m
+      (BuiltOrRolledBack m r (pre ++ lives (List.replicate k default) ++ post) (pre ++ raws k ++ post)) :=
+  uninitValueN_post m r pre post k h
+
+/-- a throwing event really throws (the statements above are not vacuous): with one unit of fuel the copy construction fails -/
+theorem C09_copy_can_throw (m : Mem α) (a : Addr) (v : α) (b : List (Slot α)) (h : m.buf a.r = some b) (hs : b[a.i]? = some .raw)
+    (hf : m.fuel = some 1) : (runM (constructCopy a v) m).1 = .error (.exc .elem) := by
+  unfold constructCopy
+  rw [runM_bind]
+  have := requireRaw_post m a b .raw h hs (Or.inl rfl)
+  unfold Post at this
+  obtain ⟨h1, h2⟩ := this
+  rw [show runM (requireRaw a) m = (.ok (), m) from Prod.ext h1 h2]
+  simp only [runM_bind, tick_throw m .elem hf]
+
+/-- `insert_n` (single-element insertion without reallocation): new element in place, or the buffer exactly as before -/
+theorem C09_insert_n_rolls_back (m : Mem α) (r : Region) (pre post : List (Slot α)) (xs : List α) (arg : Arg α) (v : α)
+    (h : m.buf r = some (pre ++ lives xs ++ .raw :: post))
+    (ha : ∀ g : Slot α, ArgIn (View.set m.buf r (pre ++ g :: lives xs ++ post)) r pre (lives xs ++ post) 1 arg v) :
+    Post (insertN ⟨r, pre.length⟩ xs.length arg) m
+      (fun res m' => ((res = .ok () ∧ m'.buf = View.set m.buf r (pre ++ .live v :: lives xs ++ post)) ∨
+                      (res = .error (.exc .elem) ∧ m'.buf = m.buf)) ∧ Keep m m') :=
+  insertN_post m r pre post xs arg v h ha
+
+/-- growth: the same elements in a larger buffer, or an exception and words and buffers exactly as before -/
+theorem C09_grow {cfg : Cfg} {Ok : VB → Prop} (L : VecLaws α cfg Ok) (hd : cfg.dynamic = true) (m : Mem α) (c : Nat) (xs : List α) (w : VB)
+    (needed : Nat) (exact : Bool) (h : VRepW cfg Ok c m xs w) (hf : Fresh m) (hlt : cfg.ops.capacity w < needed)
+    (hex : exact = true → needed ≤ cfg.ops.kMax) : Post (grow cfg c needed exact) m (GrowPost cfg Ok c m xs w needed) :=
+  L.grow hd m c xs w needed exact h hf hlt hex
+
+section ops
+variable {cfg : Cfg} {Ok : VB → Prop} (L : VecLaws α cfg Ok) (m : Mem α) (c : Nat) (xs : List α) (w : VB)
+  (h : VRepW cfg Ok c m xs w) (hf : Fresh m)
+include L h hf
+
+theorem C09_push_back (ref : Ref α) (v : α) (hv : RefOK cfg c m w xs ref v) :
+    Post (pushBackCopy cfg c ref) m (StrongPost cfg Ok c m w xs (xs ++ [v]) ()) := pushBackCopy_post L m c xs w ref v h hf hv
+theorem C09_push_back_move (v : α) : Post (pushBackMove cfg c v) m (StrongPost cfg Ok c m w xs (xs ++ [v]) ()) :=
+  pushBackMove_post L m c xs w v h hf
+theorem C09_append_range (vals : List α) : Post (appendRange cfg c vals) m (StrongPost cfg Ok c m w xs (xs ++ vals) ()) :=
+  appendRange_post L m c xs w vals h hf
+theorem C09_append_n [Inhabited α] (count : Nat) :
+    Post (appendN cfg c count) m (StrongPost cfg Ok c m w xs (xs ++ List.replicate count default) ()) := appendN_post L m c xs w count h hf
+theorem C09_append_fill (count : Nat) (ref : Ref α) (v : α) (hv : RefOK cfg c m w xs ref v) :
+    Post (appendFill cfg c count ref) m (StrongPost cfg Ok c m w xs (xs ++ List.replicate count v) ()) :=
+  appendFill_post L m c xs w count ref v h hf hv
+theorem C09_resize [Inhabited α] (count : Nat) : Post (resize cfg c count) m
+    (StrongPost cfg Ok c m w xs (if xs.length < count then xs ++ List.replicate (count - xs.length) default else xs.take count) ()) :=
+  resize_post L m c xs w count h hf
+theorem C09_resize_fill (count : Nat) (ref : Ref α) (v : α) (hv : RefOK cfg c m w xs ref v) : Post (resizeFill cfg c count ref) m
+    (StrongPost cfg Ok c m w xs (if xs.length < count then xs ++ List.replicate (count - xs.length) v else xs.take count) ()) :=
+  resizeFill_post L m c xs w count ref v h hf hv
+theorem C09_reserve (n : Nat) (hn : n ≤ cfg.ops.kMax) : Post (reserve cfg c n) m (StrongPost cfg Ok c m w xs xs ()) :=
+  reserve_post L m c xs w n h hf hn
+end ops
+
+/- the law packages hold for the code as it is now (regenerated and re-proved on every run) -/
+theorem C09_laws_small_U8 (cfg : Cfg) (hfl : cfg.flavour = .small) (hops : cfg.ops = Gen.U8.svbOps) (hN : cfg.n < Gen.U8.kMax) (hN0 : 0 < cfg.n) :
+    VecLaws α cfg (SOkW cfg.ops cfg.n) := Bridge.U8.small_vecLaws α cfg hfl hops hN hN0
+theorem C09_laws_small_U16 (cfg : Cfg) (hfl : cfg.flavour = .small) (hops : cfg.ops = Gen.U16.svbOps) (hN : cfg.n < Gen.U16.kMax) (hN0 : 0 < cfg.n) :
+    VecLaws α cfg (SOkW cfg.ops cfg.n) := Bridge.U16.small_vecLaws α cfg hfl hops hN hN0
+theorem C09_laws_small_U32 (cfg : Cfg) (hfl : cfg.flavour = .small) (hops : cfg.ops = Gen.U32.svbOps) (hN : cfg.n < Gen.U32.kMax) (hN0 : 0 < cfg.n) :
+    VecLaws α cfg (SOkW cfg.ops cfg.n) := Bridge.U32.small_vecLaws α cfg hfl hops hN hN0
+theorem C09_laws_small_U64 (cfg : Cfg) (hfl : cfg.flavour = .small) (hops : cfg.ops = Gen.U64.svbOps) (hN : cfg.n < Gen.U64.kMax) (hN0 : 0 < cfg.n) :
+    VecLaws α cfg (SOkW cfg.ops cfg.n) := Bridge.U64.small_vecLaws α cfg hfl hops hN hN0
+theorem C09_laws_vector_U8 (cfg : Cfg) (hfl : cfg.flavour = .std) (hops : cfg.ops = Gen.U8.dvbOps) : VecLaws α cfg (DOkW cfg.ops.kMax) :=
+  Bridge.U8.std_vecLaws α cfg hfl hops
+theorem C09_laws_vector_U16 (cfg : Cfg) (hfl : cfg.flavour = .std) (hops : cfg.ops = Gen.U16.dvbOps) : VecLaws α cfg (DOkW cfg.ops.kMax) :=
+  Bridge.U16.std_vecLaws α cfg hfl hops
+theorem C09_laws_vector_U32 (cfg : Cfg) (hfl : cfg.flavour = .std) (hops : cfg.ops = Gen.U32.dvbOps) : VecLaws α cfg (DOkW cfg.ops.kMax) :=
+  Bridge.U32.std_vecLaws α cfg hfl hops
+theorem C09_laws_vector_U64 (cfg : Cfg) (hfl : cfg.flavour = .std) (hops : cfg.ops = Gen.U64.dvbOps) : VecLaws α cfg (DOkW cfg.ops.kMax) :=
+  Bridge.U64.std_vecLaws α cfg hfl hops
+theorem C09_laws_fixed_U8 (cfg : Cfg) (hfl : cfg.flavour = .fixed) (hops : cfg.ops = Gen.U8.fvbOps) (hchk : cfg.checked = true) :
+    VecLaws α cfg (Bridge.U8.FOk cfg.n) := Bridge.U8.fixed_vecLaws α cfg hfl hops hchk
+theorem C09_laws_fixed_U16 (cfg : Cfg) (hfl : cfg.flavour = .fixed) (hops : cfg.ops = Gen.U16.fvbOps) (hchk : cfg.checked = true) :
+    VecLaws α cfg (Bridge.U16.FOk cfg.n) := Bridge.U16.fixed_vecLaws α cfg hfl hops hchk
+theorem C09_laws_fixed_U32 (cfg : Cfg) (hfl : cfg.flavour = .fixed) (hops : cfg.ops = Gen.U32.fvbOps) (hchk : cfg.checked = true) :
+    VecLaws α cfg (Bridge.U32.FOk cfg.n) := Bridge.U32.fixed_vecLaws α cfg hfl hops hchk
+theorem C09_laws_fixed_U64 (cfg : Cfg) (hfl : cfg.flavour = .fixed) (hops : cfg.ops = Gen.U64.fvbOps) (hchk : cfg.checked = true) :
+    VecLaws α cfg (Bridge.U64.FOk cfg.n) := Bridge.U64.fixed_vecLaws α cfg hfl hops hchk
+
+end AmcVerif.Props.C09
+
+namespace AmcVerif.Props.C09
+open AmcVerif
+
+/-- the hypotheses are satisfiable: a freshly constructed `FixedCapacityVector<T, 2>` is a `VRepW` of the empty list … -/
+def exCfg : Cfg := { flavour := .fixed, n := 2, ops := Gen.U8.fvbOps }
+def exMem : Mem Nat := { ws := [Gen.U8.fvbOps.ctor 2], inls := [[.raw, .raw]], blocks := [] }
+
+example : VRepW exCfg (Bridge.U8.FOk 2) 0 exMem [] (Gen.U8.fvbOps.ctor 2) where
+  store := {
+    ws := rfl
+    ok := ⟨by decide, rfl, by decide⟩
+    len := rfl
+    buf := Or.inr rfl
+    cnt := fun id h => by simp [regionOf, resolve, exCfg, Gen.U8.fvbOps, Gen.U8.FVB.begin] at h
+    inl := fun h => absurd rfl h }
+  size := rfl
+
+example : Fresh exMem := fun id h => by simp [Mem.buf, exMem] at h
+
+/-- … and `push_back(7)` on it satisfies the strong post-condition with the list `[7]` -/
+example : Post (pushBackCopy exCfg 0 (.lit 7)) exMem (StrongPost exCfg (Bridge.U8.FOk 2) 0 exMem (Gen.U8.fvbOps.ctor 2) [] [7] ()) :=
+  C09_push_back (C09_laws_fixed_U8 exCfg rfl rfl rfl) exMem 0 [] _
+    ⟨⟨rfl, ⟨by decide, rfl, by decide⟩, rfl, Or.inr rfl,
+      fun id h => by simp [regionOf, resolve, exCfg, Gen.U8.fvbOps, Gen.U8.FVB.begin] at h, fun h => absurd rfl h⟩, rfl⟩
+    (fun id h => by simp [Mem.buf, exMem] at h) (.lit 7) 7 rfl
+
 end AmcVerif.Props.C09
